@@ -27,7 +27,7 @@ def run(ctx):
     scens = [gl.history(rnd, "h%d" % i, steps=rnd.randint(4, 9), with_construct=False) for i in range(n)]
     scens += [scale_history(rnd, "s%d" % i) for i in range(n // 3)]
     gen = gl.mc_and_scripts(ctx, ['seq', 'localp1', 'localp2', 'wavelet', 'globalleja', 'fourier'], rnd, 150 if ctx.quick else 3000, maxlen=None if ctx.quick else 5, genlen=3 if ctx.quick else 4, mc=True)
-    gl.run_grid(ctx, gen + [("hist", scens)], gl.OBS_NODAL, "C07")
+    gl.run_grid(ctx, gen + [("hist", scens), ("mixed", gl.mixed_family(rnd, max(40, n // 5)))], gl.OBS_NODAL, "C07")
     ctx.assume("flagged sets are derived by the spec from logged normalised coefficient ratios (observer); tolerances are placed between distinct ratios")
 
 
